@@ -496,6 +496,11 @@ def o_c09(term, t, op, pre, post, res, fails):
         if res[1] == 3 and name != 'index':
             fails.append({'oracle': 'C09.error_type', 'step': t, 'msg': '%s raised IndexError' % name})
             return
+        if res[1] == 3 and name == 'index' and isinstance(op[2], int) and -len(pre[op[1]][BASE]) <= op[2] < len(pre[op[1]][BASE]):
+            # "IndexError for an OUT-OF-RANGE integer index; the error str itself raises for the same call"
+            fails.append({'oracle': 'C09.error_type', 'step': t,
+                          'msg': 'index %d raised IndexError on a text of length %d (str accepts it)' % (op[2], len(pre[op[1]][BASE]))})
+            return
         for j in range(len(pre)):
             if not obs_equal_value(pre[j], post[j]):
                 fld = [k for k in range(TABLE) if pre[j][k] != post[j][k]]
